@@ -857,7 +857,7 @@ impl<'a, 'c> Exec<'a, 'c> {
     }
 
     /// C13 invariants 1-2 and C01 containment on a parser value
-    fn check_positions(&mut self, p: Parser<'a>, what: &str) -> Res {
+    fn check_positions(&mut self, p: Parser<'a>, what: &dyn std::fmt::Display) -> Res {
         let text = self.text;
         let base = self.base;
         let (so, eo, rem) = match guard(|| (p.start_offset(), p.end_offset(), p.remainder())) {
@@ -922,7 +922,7 @@ impl<'a, 'c> Exec<'a, 'c> {
         Ok(())
     }
 
-    fn check_piece(&mut self, piece: &'a str, pre_rem: &'a str, what: &str) -> Res {
+    fn check_piece(&mut self, piece: &'a str, pre_rem: &'a str, what: &dyn std::fmt::Display) -> Res {
         if self.ctx.wants("C01") {
             if str_offset_in(self.text, piece).is_none() {
                 return Err(self.v("piece-outside-text", format!("{what}: returned piece not inside the text")));
@@ -964,7 +964,7 @@ fn exec(case: &ParserCase, ctx: &mut Ctx) -> Res {
         Ok(p) => p,
         Err(m) => return Err(ex.v("unexpected-panic", format!("constructor panicked: {m}"))),
     };
-    ex.check_positions(p0, "constructor")?;
+    ex.check_positions(p0, &"constructor")?;
     if base as u64 + text.len() as u64 + 8 >= u32::MAX as u64 {
         ex.ctx.cov.probe("parser-base-near-u32-max");
     }
@@ -1052,7 +1052,7 @@ fn exec(case: &ParserCase, ctx: &mut Ctx) -> Res {
                 Ok(x) => x,
                 Err(m) => return Err(ex.v("unexpected-panic", format!("{op:?}: {m}"))),
             };
-            ex.check_positions(np, &format!("{op:?}"))?;
+            ex.check_positions(np, &Lazy(|| format!("{op:?}")))?;
             let moved = np.remainder().len() != r.len();
             if ex.ctx.wants("C13") {
                 let d = pm_dir(*form);
@@ -1333,7 +1333,8 @@ fn exec(case: &ParserCase, ctx: &mut Ctx) -> Res {
             }
         }
 
-        let what = format!("{op:?} on remainder {r:?}");
+        let what = Lazy(|| format!("{op:?} on remainder {r:?}"));
+        let what: &dyn std::fmt::Display = &what;
         let mut new_flag = flag;
         let (np, piece, val, err): (Option<Parser>, Option<&str>, Option<Val>, Option<ParseError>) = match out {
             Out::Moved(np) => (Some(np), None, None, None),
@@ -1344,9 +1345,9 @@ fn exec(case: &ParserCase, ctx: &mut Ctx) -> Res {
 
         // -- C13 / C01 on the result
         if let Some(np) = np {
-            ex.check_positions(np, &what)?;
+            ex.check_positions(np, what)?;
             if let Some(s) = piece {
-                ex.check_piece(s, r, &what)?;
+                ex.check_piece(s, r, what)?;
             }
             if ex.ctx.wants("C13") {
                 if np.parse_direction() != dir.konst() {
@@ -1524,14 +1525,15 @@ fn proto<'a>(ex: &mut Exec<'a, '_>, cur: H<'a>, kind: u8, p: &Pat) -> Res {
             }
         }
     });
-    let what = format!("protocol kind={kind} delimiter {d:?} on remainder {r:?}");
+    let what = Lazy(|| format!("protocol kind={kind} delimiter {d:?} on remainder {r:?}"));
+    let what: &dyn std::fmt::Display = &what;
     if let Err(m) = res {
         return Err(ex.v("unexpected-panic", format!("{what}: {m}")));
     }
     // every intermediate parser must satisfy the position invariants too
-    ex.check_positions(p_cur, &what)?;
+    ex.check_positions(p_cur, what)?;
     for s in &got {
-        ex.check_piece(s, r, &what)?;
+        ex.check_piece(s, r, what)?;
     }
     ex.ctx.cov.step(mix(mix(25, kind as u64), got.len() as u64), !got.is_empty());
     if !ex.ctx.wants("C14") {
